@@ -146,6 +146,7 @@ impl Tr {
                     ("cmp_max", 2) | ("std_cmp_max", 2) | ("max", 2) => format!("(N.max {} {})", self.expr(args[0])?, self.expr(args[1])?),
                     ("Some", 1) => format!("(Some {})", self.expr(args[0])?),
                     ("Ok", 1) => self.expr(args[0])?,
+                    (name, 0) if self.consts.contains_key(name) => self.consts[name].clone(),
                     _ => return Err(format!("unsupported call {}", f)),
                 }
             }
@@ -774,6 +775,46 @@ fn config_block_size(src: &Src) -> R<String> {
         if !["opts_no_progress", "opts_block_size"].contains(&f.as_str()) { return Err(format!("Config::from: unexpected variable {}", f)); }
     }
     Ok(format!("(* {}:{}  Config::from(&Opts): the block size (usize::MAX under --no-progress) *)\nDefinition x_config_block_size (opts_no_progress : bool) (opts_block_size : N) : N :=\n  {}.\n", src.path, line, v))
+}
+
+/// Config::num_workers (libxcp/src/config.rs): the number of worker threads both drivers start
+fn num_workers(src: &Src) -> R<String> {
+    let (_, block) = find_fn(src, "num_workers")?;
+    let mut tr = Tr::new();
+    tr.consts.insert("num_cpus_get".into(), "ncpus".into());
+    let v = tr.block_value(block)?;
+    for f in &tr.free {
+        if f != "self_workers" { return Err(format!("Config::num_workers: unexpected variable {}", f)); }
+    }
+    Ok(format!("(* {}:{}  Config::num_workers: how many workers the drivers start (num_cpus::get() = ncpus) *)\nDefinition x_num_workers (self_workers ncpus : N) : N :=\n  {}.\n",
+               src.path, block.span().start().line, v))
+}
+
+/// impl From<&Opts> for Config (src/options.rs): the `workers` field as a function, and every field with the text of its initialiser
+fn config_from_opts(src: &Src) -> R<String> {
+    let (e, line) = struct_field_expr(src, "from", "workers")?;
+    let mut tr = Tr::new();
+    tr.consts.insert("num_cpus_get".into(), "ncpus".into());
+    let v = tr.expr(&e)?;
+    for f in &tr.free {
+        if f != "opts_workers" { return Err(format!("Config::from: unexpected variable {} in `workers`", f)); }
+    }
+    let (_, block) = find_fn(src, "from")?;
+    // the function must be exactly one struct literal `Config { .. }` without a `..base` tail
+    let lit = match block.stmts.as_slice() {
+        [Stmt::Expr(Expr::Struct(st), None)] => st,
+        _ => return Err("Config::from is not a single struct literal".into()),
+    };
+    if lit.rest.is_some() { return Err("Config::from: struct literal has a `..base` tail".into()); }
+    let mut fields = vec![];
+    for fv in &lit.fields {
+        if let syn::Member::Named(i) = &fv.member {
+            let t = quote::ToTokens::to_token_stream(&fv.expr).to_string().replace(' ', "");
+            fields.push(format!("(\"{}\", \"{}\")", i, t.replace('"', "\"\"")));
+        }
+    }
+    Ok(format!("(* {}:{}  Config::from(&Opts): the worker count (0 = one per CPU) *)\nDefinition x_config_workers (opts_workers ncpus : N) : N :=\n  {}.\n\n(* {}  Config::from(&Opts): every field of the one struct literal with the text of its initialiser *)\nDefinition x_config_fields : list (string * string) :=\n  [{}].\n",
+               src.path, line, v, src.path, fields.join("; ")))
 }
 
 /// next_backup_num: `Ok(current + 1)` and the `.unwrap_or(<lit>)` default
@@ -1794,8 +1835,15 @@ fn main() {
         Err(e) => emit("src/main.rs", Err(e), &mut out),
     }
     match load(root, "src/options.rs") {
-        Ok(src) => emit("Config::from", config_block_size(&src), &mut out),
+        Ok(src) => {
+            emit("Config::from", config_block_size(&src), &mut out);
+            emit("Config::from (fields)", config_from_opts(&src), &mut out);
+        }
         Err(e) => emit("options.rs", Err(e), &mut out),
+    }
+    match load(root, "libxcp/src/config.rs") {
+        Ok(src) => emit("Config::num_workers", num_workers(&src), &mut out),
+        Err(e) => emit("config.rs", Err(e), &mut out),
     }
     match load(root, "libxcp/src/backup.rs") {
         Ok(src) => {
@@ -1860,7 +1908,11 @@ fn main() {
         ("libxcp/src/drivers/parblock.rs", "copy"), ("libxcp/src/drivers/parblock.rs", "dispatch_worker"),
         ("libxcp/src/drivers/parblock.rs", "queue_file_range"),
         ("libxcp/src/feedback.rs", "new"), ("libxcp/src/feedback.rs", "send"),
-        ("src/main.rs", "main"), ("src/main.rs", "expand_globs"), ("src/main.rs", "opts_check"),
+        ("src/main.rs", "main"), ("src/main.rs", "expand_globs"), ("src/main.rs", "opts_check"), ("src/main.rs", "expand_sources"),
+        ("libxcp/src/drivers/parblock.rs", "new"), ("libxcp/src/drivers/parfile.rs", "new"), ("libxcp/src/drivers/mod.rs", "load_driver"),
+        ("libfs/src/linux.rs", "reflink"), ("libfs/src/linux.rs", "copy_file_bytes"), ("libfs/src/linux.rs", "copy_file_offset"),
+        ("libfs/src/linux.rs", "try_copy_file_range"), ("libfs/src/linux.rs", "copy_node"), ("libfs/src/linux.rs", "lseek"),
+        ("libfs/src/common.rs", "copy_xattr"),
     ];
     {
         let mut items = vec![];
